@@ -243,7 +243,7 @@ Proof. vm_compute. reflexivity. Qed.
                             (key, permission) pairs, keys numbered by ANY injection enc : key -> N
                             (the executor model's keys are numbers, C01's keys are byte strings);
      [tasks_of enc ptxs]    one task per prepared transaction, in block order (chain/processor.go
-                            executeTxs: `for li, ltx := range b.StatelessBlock.Txs`, line 250, calls
+                            executeTxs: `for li, ltx := range b.StatelessBlock.Txs`, line 249, calls
                             `e.Run(stateKeys, func() error {...})`, line 278, once per transaction with
                             the `stateKeys` returned by tx.StateKeys, line 253);
      [block_tasks enc txs]  the same from the block's transactions ([state_keys t]);
@@ -252,7 +252,7 @@ Proof. vm_compute. reflexivity. Qed.
 
    What is still assumed, outside these theorems (unchanged from C01's other theorems, but now only this):
    (1) a task body (the closure passed to e.Run: f.Get, NewView, PreExecute, Execute, Commit,
-       processor.go 278-311) is [Chain.run_tx] on the block-level TState as it is when the body runs
+       processor.go 278-310) is [Chain.run_tx] on the block-level TState as it is when the body runs
        relative to the CONFLICTING tasks; that is legitimate because conflicting bodies never overlap
        (C08_order_code: EvEnd i precedes EvBegin j) and commits of non-conflicting, possibly
        overlapping bodies are invisible to it (C01_nonconflicting_commits_invisible for whole tasks,
@@ -382,6 +382,22 @@ Theorem C01_C08_composed_task_loop : forall (enc : key -> N), Inj (=) (=) enc ->
 Proof. intros enc Henc. exact (composed_task_loop enc). Qed.
 Print Assumptions C01_C08_composed_task_loop.
 
+(* ---- incomplete and failing runs ----------------------------------------------------------------
+   EVERY reachable executor state (any prefix of any run; failing bodies, Stop calls, tasks skipped
+   after an error): the started tasks are closed under "earlier conflicting task" (C08_order_code), so
+   the begin order extends to a conflict-respecting permutation by the not yet started positions;
+   consequently every task whose body started has — run in the order in which the executor started
+   the bodies — exactly the outcome (Result or error) it has in sequential execution (the identity
+   schedule, C01_sequential_is_identity_schedule).  In particular an error that makes the real
+   executor skip the remaining tasks is an error of the sequential execution of the block. *)
+Theorem C01_C08_started_tasks_sequential : forall (enc : key -> N), Inj (=) (=) enc ->
+  forall r fm parent ts st (ptxs : list ptx) c tr s,
+  Executor.c_ts c = tasks_of enc ptxs -> Executor_proofs.cfg_ok c -> Executor.steps c Executor.init tr s ->
+  forall i o, (i, o) ∈ snd (par_exec r fm parent ts st ptxs (begin_order (Executor.log s))) ->
+              (i, o) ∈ snd (par_exec r fm parent ts st ptxs (seq 0 (length ptxs))).
+Proof. intros enc Henc. exact (trace_started_sequential enc). Qed.
+Print Assumptions C01_C08_started_tasks_sequential.
+
 (* ---- non-vacuity of the composition -------------------------------------------------------------
    The 3-transaction block above (tx0 and tx2 write kA, tx1 touches kB; every tx also declares its
    sponsor's balance key).  Keys are numbered by stdpp's injective encoding of byte strings. *)
@@ -464,3 +480,14 @@ Proof.
   apply (C01_executor_trace_respects_block enc_key _) with (c := ex_cfg) (tr := ex_trace_fail);
     [reflexivity | exact C01_ex_cfg_ok | exact Hst].
 Qed.
+
+(* C01_C08_started_tasks_sequential on that failing run: the prepared transactions of the block are
+   the executor's tasks, and the two started bodies (1 then 0) produce an outcome each *)
+Example C01_ex_started :
+  match prepare ex_rules (compute_next ex_fee (b_ts ex_block) (r_target ex_rules) (r_denom ex_rules) (r_min_price ex_rules)) ex_txs with
+  | inl (ptxs, fm') =>
+      tasks_of enc_key ptxs = ex_tasks /\
+      map fst (snd (par_exec ex_rules fm' (p_data (ex_parent ex_fee [])) (b_ts ex_block) ts_new ptxs [1; 0]%nat)) = [1; 0]%nat
+  | inr _ => False
+  end.
+Proof. vm_compute. split; reflexivity. Qed.
